@@ -4,6 +4,7 @@ A plan = explicit world spec (shared object graph) + a history of modelling call
 arguments are references into that graph.  The history runs in one session (zygote A);
 every call is also executed as the *first* call of a pristine copy of the same world in a
 session of zygote B (other PYTHONHASHSEED, clock in another decade)."""
+import copy
 import math
 import os
 import shutil
@@ -84,6 +85,36 @@ def gen_world(w, n_membranes=(2, 4), small=False):
                 exps.append({"T": round(t0 + 12.0 * j, 2), "component": r, "permeance": [wg.logu(w, 1e-4, 5e-2), None], "ea": ea})
         membranes.append({"dir": "m%d" % len(membranes), "constructed": True, "experiments": exps, "mixture_ref": {"custom": mx},
                           "has_ideal": True, "ideal_temps": sorted({e["T"] for e in exps}), "sets": [], "t0": exps[0]["T"]})
+    # twins: a second object that shares its *name* (and temperatures) with an earlier one but holds
+    # different numbers - what a user gets by correcting a value and loading / building again.
+    # Anything that identifies objects by name instead of by content or identity shows up here.
+    if w.random() < 0.55:
+        cands = [m for m in membranes if m.get("synthetic") and m.get("has_ideal") and len(m.get("ideal_temps", [])) >= 2]
+        cons = [m for m in membranes if m.get("constructed")]
+        if cands and (not cons or w.random() < 0.6):
+            src = w.choice(cands)
+            twin = copy.deepcopy(src)
+            twin["dir"] = "twin/" + src["dir"]
+            f1, f2 = wg.rnd(w, 1.3, 2.5, 3), wg.rnd(w, 0.3, 0.8, 3)
+            t_lo = min(src["ideal_temps"])
+            for row in twin["ideal_rows"]:
+                # different slope and level: another activation energy and another permeance
+                row[4] = float("%.9g" % (row[4] * (f1 if row[1] == t_lo else f2)))
+            twin["twin_of"] = src["dir"]
+            membranes.append(twin)
+        elif cons:
+            src = cons[0]
+            twin = copy.deepcopy(src)
+            for k, e in enumerate(twin["experiments"]):
+                e["permeance"] = [float("%.9g" % (e["permeance"][0] * (2.1 if k % 2 == 0 else 0.45))), e["permeance"][1]]
+                if e.get("ea") is not None:
+                    e["ea"] = e["ea"] * 1.5
+            twin["twin_of"] = src["dir"]
+            membranes.append(twin)
+    if len(mixes) >= 2 and w.random() < 0.4:
+        mixes[1]["name"] = mixes[0]["name"]
+    if len(comps) >= 2 and w.random() < 0.3:
+        comps[1]["name"] = comps[0]["name"]
     spec["membranes"] = membranes
     # scalar-ish shared objects
     ncomp = w.randint(6, 10)
@@ -145,6 +176,11 @@ def gen_world(w, n_membranes=(2, 4), small=False):
     for mi, m in enumerate(membranes):
         for s in m["sets"]:
             csets.append([mi, s["name"]])
+    # a directly constructed DiffusionCurveSet whose curves keep MOLE-fraction compositions
+    # (sets loaded from CSV are converted to mass fractions by from_frame)
+    for ci in range(len(csets)):
+        if w.random() < 0.45:
+            csets.append({"molar_copy_of": ci})
     spec["curve_sets"] = csets
     curves = []
     for ci in range(len(csets)):
@@ -188,11 +224,16 @@ def gen_world(w, n_membranes=(2, 4), small=False):
 
 def gen_function(w):
     n, m = w.randint(0, 3), w.randint(0, 2)
+    if w.random() < 0.12:
+        # extreme coefficients: evaluation overflows/underflows for part of the grid (inf / 0 with a
+        # numpy warning by default; a call that leaves numpy's error state changed would turn it into an exception)
+        return {"n": 2, "m": 0, "alpha": wg.logu(w, 1e-3, 1e3, 6), "a": [round(w.uniform(600, 900), 3), round(w.uniform(-50, 50), 3)],
+                "b": [round(w.uniform(-3000, 3000), 3)], "array": w.random() < 0.5}
     return {"n": n, "m": m, "alpha": wg.logu(w, 1e-6, 1e2, 8), "a": [round(w.uniform(-4, 4), 6) for _ in range(n)],
             "b": [round(w.uniform(-3000, 6000), 4) for _ in range(m + 1)], "array": w.random() < 0.5}
 
 
-def synth_points(w, npts=None, ntemps=None):
+def synth_points(w, npts=None, ntemps=None, endpoints=0.35):
     """Measurements generated from a ground truth alpha*exp(sum a x^(i+1) - sum b x^i / T) with noise."""
     ntemps = ntemps or w.randint(1, 4)
     npts = npts or w.randint(3, 40)
@@ -210,6 +251,10 @@ def synth_points(w, npts=None, ntemps=None):
         p = alpha * math.exp(e + b[0] / 330.0) * (1 + w.uniform(-noise, noise))
         p = min(max(p, 1e-6), 1.0)
         pts.append([x, t, float("%.9g" % p)])
+    if w.random() < endpoints:
+        # measurements at the pure-component ends are legal data too
+        for k in range(min(len(pts), w.randint(1, 3))):
+            pts[w.randrange(len(pts))][0] = w.choice([0.0, 1.0])
     return pts
 
 
@@ -224,15 +269,21 @@ class Meta:
         self.pvs = spec["pvs"]
         self.csets = spec["curve_sets"]
 
+    def base(self, ci):
+        c = self.csets[ci]
+        while isinstance(c, dict):
+            c = self.csets[c["molar_copy_of"]]
+        return c
+
     def pv_info(self, i):
         mi, mixref = self.pvs[i]
         m = self.membranes[mi]
         own = m.get("mixture_ref") or {"builtin": m.get("mixture")}
         return {"m": m, "mi": mi, "mixref": mixref, "match": own == mixref, "has_ideal": m.get("has_ideal", False),
-                "sets": [ci for ci, (mj, _) in enumerate(self.csets) if mj == mi]}
+                "sets": [ci for ci in range(len(self.csets)) if self.base(ci)[0] == mi]}
 
     def set_meta(self, ci):
-        mi, name = self.csets[ci]
+        mi, name = self.base(ci)
         for s in self.membranes[mi]["sets"]:
             if s["name"] == name:
                 return s
@@ -708,6 +759,9 @@ def execute(ctx, plan, stats=None, extra_oracles=None, prop="C20", names=None):
             st["snapshot_checks"] += 1
             if rep.get("snapshot_changed"):
                 raise Violation(names["snapshot"], op, {"changed": rep["snapshot_changed"], "outcome": ho.split(":")[0]})
+            if rep.get("interpreter_state_changed"):
+                st["probe_interpreter_state_changed"] = st.get("probe_interpreter_state_changed", 0) + 1
+                rec["interp_changed"] = rep["interpreter_state_changed"]
             # --- repeat oracle
             key = op_key(op)
             if key in seen:
@@ -720,6 +774,27 @@ def execute(ctx, plan, stats=None, extra_oracles=None, prop="C20", names=None):
                 if more:
                     rec.update(more)
             trace.append(rec)
+            last_ok = (op, ho)
+        # --- the fork shortcut itself is checked: last call again in a brand-new interpreter
+        if plan.get("new_interpreter_ref") and plan["ops"] and trace and trace[-1].get("fn") and trace[-1].get("outcome") != "budget":
+            from .lane import Zygote
+            op = plan["ops"][len([r for r in trace if r.get("fn")]) - 1]
+            hs3 = derive(plan["run_seed"], "hashseed-new-interpreter") % 4294967290 + 1
+            z = Zygote(hs3, "-", ctx.repo, "N")
+            try:
+                s3 = z.fork(dict(init, entropy=derive(plan["run_seed"], "entropy-new") % (2**31)))
+                if s3.hello["world"] != wa:
+                    raise HarnessError("new interpreter built a different world")
+                r3 = s3.op(op, {"start": now + 2 * DECADE_US, "step": 1})
+                s3.close()
+            finally:
+                z.close()
+            st["new_interpreter_refs"] += 1
+            o3 = outcome_of(r3)
+            if o3 != trace[-1]["outcome"]:
+                det = {"history": trace[-1]["outcome"], "new_interpreter": o3, "hash_seed": hs3}
+                raise Violation(names["fresh"], op, det)
+            trace.append({"new_interpreter": "agrees"})
     except Violation as v:
         violation = {"oracle": v.oracle, "op": v.op, "detail": v.detail}
         trace.append({"violation": v.oracle, "fn": v.op.get("fn")})
